@@ -19,7 +19,7 @@
 
 namespace vf {
 
-inline long g_poison_reads = 0;
+inline thread_local long g_poison_reads = 0;
 struct from_mpq_t {};
 
 #define VF_EXACT_COMMON(TYPE)                                                  \
@@ -103,7 +103,7 @@ struct from_mpq_t {};
 // Division by zero is outside every property statement; the harnesses never
 // generate it. If the code under test divides by zero anyway it is counted
 // (and reported by the harness) instead of raising SIGFPE inside GMP.
-inline long g_div_zero = 0;
+inline thread_local long g_div_zero = 0;
 
 /// Strict archetype.
 struct Q {
